@@ -148,7 +148,7 @@ func writeEvidence(prop, tier string, seed uint64, results []*RunResult, nviol i
 	if err != nil {
 		return err
 	}
-	dir := filepath.Join(verifDir, "evidence")
+	dir := filepath.Join(outDir(), "evidence")
 	_ = os.MkdirAll(dir, 0o755)
 	return os.WriteFile(filepath.Join(dir, prop+".json"), bz, 0o644)
 }
